@@ -59,6 +59,38 @@ def make_pool(seed, n):
                  'nowait': False, 'arguments': tbl}, 1)})
             ops.append({'op': 'decode', 'data': refcodec.enc_header(
                 0, {'headers': tbl} if tbl else {}, 1)})
+    # what real peers send first: Connection.Start of many broker products /
+    # versions, then ordinary session traffic; each followed (in pool order)
+    # by an encode whose result depends on the legacy switch, so that a
+    # decode that flips it is seen at once
+    from .gen import realistic
+    sess = realistic.session_frames()
+    starts = [b for lab, b in sess if lab.startswith('Connection.Start')]
+    others = [b for lab, b in sess if not lab.startswith('Connection.Start')]
+    probe = {'op': 'encode_table', 'v': {'n': 40000, 'm': [3000000000],
+                                         'deep': {'x': [65535, 2**31]}}}
+    for b in starts:
+        ops.append({'op': 'decode', 'data': b})
+        ops.append(probe)
+    for b in others[::max(1, len(others) // 40)]:
+        ops.append({'op': 'decode', 'data': b})
+    ops.append(probe)
+    # encodes of the table-bearing methods with the argument tables seen in
+    # the wild (wide ones: a long stay inside one marshal call), next to
+    # encodes whose bytes depend on the legacy switch
+    wide = dict(realistic.argument_tables()[0])
+    wide.update({'pad-%02d' % i: 'v' * i for i in range(24)})
+    for name in ('Queue.Declare', 'Exchange.Declare', 'Queue.Bind',
+                 'Basic.Consume', 'Exchange.Bind', 'Connection.StartOk'):
+        sp = refspec.BY_NAME[name]
+        for args in (wide, realistic.argument_tables()[6], {}):
+            vals = gf.assignment(random.Random(name), sp)
+            for n_, t_, _d in sp.args:
+                if t_ == 'table':
+                    vals[n_] = args
+            ops.append({'op': 'encode_method', 'index': sp.index,
+                        'vals': vals, 'ch': 1})
+            ops.append(probe)
     # every refusal path of the envelope, explicitly
     fr0 = wire.method_frame(rnd, refspec.BY_NAME['Queue.Declare'],
                             allow_refuse=False)
